@@ -129,6 +129,24 @@ Inductive SliceType : sty -> sty -> Prop :=
 Inductive DotType : sty -> sty -> Prop :=
 | Dt_map s : DotType (SMap s) s.
 
+(* "The left-hand side of the = must contain an assignment target, a
+   variable, an indexed array, or a map field."  Characters of a string can
+   only be READ by index ("Individual characters of a string can be read by
+   index"); a slice, a type assertion or a function is not a target.
+   A step is described by what is written after the target so far; the index
+   expression by its type. *)
+Inductive sstep : Set := SKIdx (it : sty) | SKDot | SKSlice | SKAssert.
+
+Inductive TargetStep : sty -> sstep -> sty -> Prop :=
+| Ts_array s : TargetStep (SArr s) (SKIdx SNum) s             (* an indexed array *)
+| Ts_map_index s : TargetStep (SMap s) (SKIdx SString) s      (* a map field, index form *)
+| Ts_map_dot s : TargetStep (SMap s) SKDot s.                 (* a map field, dot form *)
+
+(* [TargetChain root steps t]: the variable of type root followed by steps is a target of type t *)
+Inductive TargetChain : sty -> list sstep -> sty -> Prop :=
+| Tc_var t : TargetChain t [] t
+| Tc_step t k t' rest r : TargetStep t k t' -> TargetChain t' rest r -> TargetChain t (k :: rest) r.
+
 (* "Only values of type any can be type asserted"; "TYPE can be any basic or
    composite type". *)
 Definition AssertOk (operand asserted : sty) : Prop := operand = SAny /\ asserted <> SAny /\ closed asserted = true.
@@ -239,6 +257,20 @@ Definition slice_type_s (l : sty) : option sty :=
 
 Definition dot_type_s (l : sty) : option sty := match l with SMap s => Some s | _ => None end.
 
+Definition target_step_s (t : sty) (k : sstep) : option sty :=
+  match t, k with
+  | SArr s, SKIdx SNum => Some s
+  | SMap s, SKIdx SString => Some s
+  | SMap s, SKDot => Some s
+  | _, _ => None
+  end.
+
+Fixpoint target_chain_s (t : sty) (ks : list sstep) : option sty :=
+  match ks with
+  | [] => Some t
+  | k :: rest => match target_step_s t k with Some t' => target_chain_s t' rest | None => None end
+  end.
+
 Definition kjoin (a b : kind) : kind := match a, b with KConst, KConst => KConst | _, _ => KVar end.
 
 Fixpoint all_some {A} (l : list (option A)) : option (list A) :=
@@ -333,6 +365,23 @@ Definition spec_assign (target : sty) (v : option (kind * sty)) : sresult :=
    element type); conditions are bool; "for el := range arr iterates over all
    elements of the array", "for key := range map iterates over all map keys",
    range over a string yields its characters, over a num counts. *)
+(* the steps of a written target: the index expression must have a type *)
+Fixpoint spec_steps (steps : list tstep) : option (list sstep) :=
+  match steps with
+  | [] => Some []
+  | st :: rest =>
+      let k := match st with
+               | TIdx i => match spec_tc i with Some (_, it) => Some (SKIdx it) | None => None end
+               | TDot => Some SKDot
+               | TSlice _ => Some SKSlice
+               | TAssert _ => Some SKAssert
+               end in
+      match k, spec_steps rest with
+      | Some k, Some r => Some (k :: r)
+      | _, _ => None
+      end
+  end.
+
 Definition spec_check (c : ctx) (e : expr) : sresult :=
   let v := spec_tc e in
   match c with
@@ -340,6 +389,15 @@ Definition spec_check (c : ctx) (e : expr) : sresult :=
   | CAssign t | CParam t | CVariadic t | CReturn t => spec_assign t v
   | CGenericArr => match v with Some (_, t) => if is_array_b t then SAccept t t else SReject | None => SReject end
   | CGenericMap => match v with Some (_, t) => if is_map_b t then SAccept t t else SReject | None => SReject end
+  | CAssignTo root steps =>
+      match spec_steps steps with
+      | Some ks => match target_chain_s root ks with
+                   | Some t => spec_assign t v
+                   | None => SReject
+                   end
+      | None => SReject
+      end
+  | CAssignCall _ => SReject
   | CCond => match v with Some (_, SBool) => SAccept SBool SBool | _ => SReject end
   | CRange =>
       match v with
